@@ -23,6 +23,9 @@ func (s Sequence) RawData() (data []byte, err error) {
 	if err != nil {
 		return []byte{}, err
 	}
+	if uint64(sequenceLen) > uint64(len(data)) {
+		return []byte{}, fmt.Errorf("sequence length %d exceeds the %d bytes of data present in the shares", sequenceLen, len(data))
+	}
 	// trim any padding that may have been added to the last share
 	return data[:sequenceLen], nil
 }
